@@ -39,6 +39,17 @@ Proof.
   - apply IH.
 Qed.
 
+(* outcome and final state do not depend on the transcript accumulated so far *)
+Lemma run_tr_indep {A} (p : prog A) : forall s tr x s' tr', run p dev s tr = (x, s', tr') ->
+  forall tr2, exists tr2', run p dev s tr2 = (x, s', tr2').
+Proof.
+  induction p as [a|e|r k IH|ms k IH]; intros s tr x s' tr' H tr2; cbn in *.
+  - inv H. eexists; reflexivity.
+  - inv H. eexists; reflexivity.
+  - destruct (dev s r) as [s1 rp]. eapply IH. exact H.
+  - eapply IH. exact H.
+Qed.
+
 (* every request a prog can ever send satisfies P *)
 Inductive all_reqs {A} (P : request -> Prop) : prog A -> Prop :=
 | ar_ret a : all_reqs P (Ret a)
@@ -641,4 +652,151 @@ Proof.
   - cbn [length]. lia.
   - cbn [length]. lia.
   - lia.
+Qed.
+
+(* ---- listing ---- *)
+(* every record with the id of its successor (0xFFFF after the last) *)
+Fixpoint annot (recs : list (list N)) : list (N * list N) :=
+  match recs with [] => [] | r :: rest => (next_id rest, r) :: annot rest end.
+
+Definition wf_store (recs : list (list N)) : Prop :=
+  Forall wf_rec recs /\ NoDup (map rec_id recs) /\
+  Forall (fun r => rec_id r <> 0 /\ rec_id r <> 0xFFFF) recs /\
+  (forall r, In r recs -> (length r <= 256)%nat).
+
+Lemma find_rec_mid done : forall r rest,
+  ~ In (rec_id r) (map rec_id done) ->
+  find_rec (done ++ r :: rest) (rec_id r) = Some (r, next_id rest).
+Proof.
+  induction done as [|d done IH]; intros r rest Hn; cbn.
+  - rewrite N.eqb_refl. reflexivity.
+  - destruct (rec_id d =? rec_id r) eqn:E.
+    + apply N.eqb_eq in E. exfalso. apply Hn. left. exact E.
+    + apply IH. intros Hin. apply Hn. right. exact Hin.
+Qed.
+Lemma lookup_mid done r rest :
+  NoDup (map rec_id (done ++ r :: rest)) -> rec_id r <> 0 ->
+  lookup (done ++ r :: rest) (rec_id r) = Some (r, next_id rest).
+Proof.
+  intros ND Hz. unfold lookup. apply N.eqb_neq in Hz. rewrite Hz. apply find_rec_mid.
+  rewrite map_app in ND. cbn in ND. apply NoDup_remove_2 in ND. intros Hin. apply ND. apply in_or_app. left. exact Hin.
+Qed.
+Lemma annot_app done : forall r rest, annot (done ++ r :: rest) = annot (done ++ [r]) ++ annot rest
+  -> True.
+Proof. trivial. Qed.
+
+Lemma entries_run fuel st resv (recs : list (list N)) : forall done r rest rid acc s tr x s' tr',
+  recs = done ++ r :: rest -> wf_store recs -> recs_of st s = recs ->
+  lookup recs rid = Some (r, next_id rest) -> rid < 65536 ->
+  acc ++ annot (r :: rest) = annot recs ->
+  (length (r :: rest) <= fuel)%nat ->
+  run (entries_loop fuel st resv rid acc) sdr_dev s tr = (x, s', tr') ->
+  inv s s' /\
+  match x with
+  | Ok l => l = annot recs
+  | Err OutOfFuel => plan_ok s -> 4 <= s_limit s -> False
+  | Err _ => True
+  end.
+Proof.
+  induction fuel as [|fuel IH]; intros done r rest rid acc s tr x s' tr' Hrecs W Hs L Hrid Hacc Hfuel H;
+    cbn [length] in Hfuel; [lia|].
+  cbn [entries_loop] in H. rewrite run_bind in H.
+  destruct (run (get_sdr st rid (Some resv)) sdr_dev s tr) as [[x1 s1] tr1] eqn:R1.
+  assert (exists trx, run (get_sdr st rid (Some resv)) sdr_dev s [] = (x1, s1, trx)) as (trx & R1').
+  { eapply run_tr_indep. exact R1. }
+  destruct W as (Wf & ND & Wid & W256).
+  apply get_sdr_run in R1'; [| rewrite Hs; exact Wf | rewrite Hs; exact W256 | exact Hrid].
+  destruct R1' as (I1 & X1). destruct x1 as [[nx data]|e].
+  2:{ inv H. split; [exact I1|]. destruct e; auto. }
+  rewrite Hs, L in X1. inv X1.
+  cbn [fst] in H.
+  assert (next_id rest <> 0) as Hnz.
+  { destruct rest as [|r' rest']; cbn; [discriminate|]. rewrite Forall_forall in Wid. apply Wid. apply in_or_app. right. right. left. reflexivity. }
+  apply N.eqb_neq in Hnz. rewrite Hnz in H.
+  destruct rest as [|r' rest'].
+  - cbn [next_id] in H. cbn in H. inv H. split; [exact I1|]. cbn [annot next_id] in Hacc. exact Hacc.
+  - cbn [next_id] in H.
+    assert (rec_id r' <> 0 /\ rec_id r' <> 0xFFFF) as (Hr0 & Hrf).
+    { rewrite Forall_forall in Wid. apply Wid. apply in_or_app. right. right. left. reflexivity. }
+    apply N.eqb_neq in Hrf. rewrite Hrf in H.
+    eapply (IH (done ++ [data]) r' rest') in H.
+    + destruct H as (I2 & X2). split; [eapply inv_trans; eauto|]. destruct x as [l|e]; [exact X2|].
+      destruct e; auto. intros P Lm. apply X2; [apply I1; exact P | rewrite (inv_limit _ _ I1); exact Lm].
+    + rewrite <- app_assoc. reflexivity.
+    + repeat split; assumption.
+    + rewrite (inv_recs st _ _ I1). exact Hs.
+    + change (done ++ data :: r' :: rest') with (done ++ [data] ++ r' :: rest'). rewrite app_assoc.
+      apply lookup_mid; [rewrite <- app_assoc; exact ND | exact Hr0].
+    + apply wf_rec_id. rewrite Forall_forall in Wf. apply Wf. apply in_or_app. right. right. left. reflexivity.
+    + rewrite <- app_assoc. exact Hacc.
+    + cbn [length] in *. lia.
+Qed.
+
+Lemma sdr_entries_run fuel st s x s' tr :
+  wf_store (recs_of st s) -> recs_of st s <> [] -> (length (recs_of st s) <= fuel)%nat ->
+  run (sdr_entries fuel st) sdr_dev s [] = (x, s', tr) ->
+  match x with
+  | Ok l => l = annot (recs_of st s)
+  | Err OutOfFuel => plan_ok s -> 4 <= s_limit s -> False
+  | Err _ => True
+  end.
+Proof.
+  intros W Hne Hfuel H. unfold sdr_entries in H. rewrite run_bind in H.
+  destruct (run (reserve st) sdr_dev s []) as [[x0 s0] tr0] eqn:R0. apply reserve_run in R0. destruct R0 as (I0 & _ & NF).
+  destruct x0 as [resv|e]; [|inv H; destruct e; auto; congruence].
+  destruct (recs_of st s) as [|r rest] eqn:Hs; [congruence|].
+  eapply (entries_run fuel st resv (r :: rest) [] r rest) in H; try reflexivity; try assumption.
+  - destruct H as (_ & X). destruct x as [l|e]; [exact X|]. destruct e; auto. intros P Lm. apply X; [apply I0; exact P|].
+    rewrite (inv_limit _ _ I0). exact Lm.
+  - rewrite (inv_recs st _ _ I0). exact Hs.
+Qed.
+
+(* ------------------------------------------------------------------------- *)
+(* statements used by Props/C11.v                                             *)
+(* ------------------------------------------------------------------------- *)
+Definition short_recs (recs : list (list N)) : Prop := forall r, In r recs -> (length r <= 256)%nat.
+
+Lemma exact_or_error st s rid resv nx data s' tr :
+  Forall wf_rec (recs_of st s) -> short_recs (recs_of st s) -> rid < 65536 ->
+  run (get_sdr st rid resv) sdr_dev s [] = (Ok (nx, data), s', tr) ->
+  lookup (recs_of st s) rid = Some (data, nx).
+Proof. intros W R Hr H. apply get_sdr_run in H; auto. destruct H as (_ & X). exact X. Qed.
+
+Lemma map_snd_annot recs : map snd (annot recs) = recs.
+Proof. induction recs as [|r rest IH]; cbn; [reflexivity | rewrite IH; reflexivity]. Qed.
+
+Lemma list_complete fuel st s l s' tr :
+  wf_store (recs_of st s) -> recs_of st s <> [] -> (length (recs_of st s) <= fuel)%nat ->
+  run (sdr_entries fuel st) sdr_dev s [] = (Ok l, s', tr) ->
+  l = annot (recs_of st s) /\ map snd l = recs_of st s.
+Proof.
+  intros W Hne Hf H. apply sdr_entries_run in H; auto. split; [exact H|]. subst l. apply map_snd_annot.
+Qed.
+
+Lemma no_fuel_get st s rid resv x s' tr :
+  Forall wf_rec (recs_of st s) -> short_recs (recs_of st s) -> rid < 65536 -> plan_ok s -> 4 <= s_limit s ->
+  run (get_sdr st rid resv) sdr_dev s [] = (x, s', tr) -> x <> Err OutOfFuel.
+Proof. intros W R Hr P L H. apply get_sdr_run in H; auto. destruct H as (_ & X). intros ->. exact (X P L). Qed.
+
+Lemma no_fuel_list fuel st s x s' tr :
+  wf_store (recs_of st s) -> recs_of st s <> [] -> (length (recs_of st s) <= fuel)%nat -> plan_ok s -> 4 <= s_limit s ->
+  run (sdr_entries fuel st) sdr_dev s [] = (x, s', tr) -> x <> Err OutOfFuel.
+Proof. intros W Hne Hf P L H. apply sdr_entries_run in H; auto. intros ->. exact (H P L). Qed.
+
+Definition example_state : sdr_state :=
+  mkSdr [[1; 0; 0x51; 0xC1; 3; 7; 8; 9]; [2; 0; 0x51; 0xC1; 9; 1; 2; 3; 4; 5; 6; 7; 8; 9]] [] 6
+        0x10 false 0x20 false [FNone; FNone; FNone; FCancel; FNone; FCode CC_TIMEOUT].
+Lemma example_read :
+  let s := example_state in
+  fst (fst (run (get_sdr Repo 2 None) sdr_dev s [])) = Ok (0xFFFF, [2; 0; 0x51; 0xC1; 9; 1; 2; 3; 4; 5; 6; 7; 8; 9])
+  /\ wf_store (s_repo s) /\ plan_ok s /\ 4 <= s_limit s.
+Proof.
+  split; [vm_compute; reflexivity|]. split; [|split].
+  - unfold wf_store, wf_rec, example_state. cbn. split; [|split; [|split]].
+    + repeat constructor; cbn; lia.
+    + repeat constructor; cbn; intuition discriminate.
+    + repeat constructor; cbn; discriminate.
+    + intros r [<-|[<-|[]]]; cbn; lia.
+  - unfold plan_ok. cbn. repeat constructor; cbn; auto.
+  - cbn. lia.
 Qed.
